@@ -191,6 +191,7 @@ class C13(core.Check):
             'positions, operand counts no variant takes and mixed-case mnemonics. Expected choice from the documented priority; '
             'expected bytes from the reference encoder. distinct_nontrivial = distinct (operand classes, accepting candidates, '
             'chosen candidate) tuples with >= 2 accepting candidates.')
+    rule = rule + ' ' + 'Numeric enumerations (argument table only / both tables) are among the alternatives, also next to plain registers.'
     assumptions = ('the index alternatives of an indexed register follow the same priority as the alternatives of an operand set '
                    '(register, then enumeration key, then numeric expression)',
                    'within one priority class of the statement (bracketed/indexed forms; keys and registers; numeric expressions) '
